@@ -28,6 +28,10 @@ def instances(cxx14=False):
             for k in ('left', 'right', 'stride'): add(k, t, pat)
             add('lpad', t, pat, 'D'); add('rpad', t, pat, 'D')
             add('lpad', t, pat, 4); add('rpad', t, pat, 4)
+    # large static extents (default construction accumulates the row-major product)
+    for t, pat in (('i64', (4, 65536, 32768)), ('u64', (4, 65536, 32768)), ('i32', (4, 1024, 512)), ('u64', (3, None, 100000)), ('i16', (5, 50, 100))):
+        for k in ('left', 'right', 'stride'): add(k, t, pat)
+        add('lpad', t, pat, 4); add('rpad', t, pat, 'D')
     for t in ('i32', 'u64'):
         for r in (5, 6):
             pat = [None] * r
